@@ -15,7 +15,8 @@ RULE = ("(constraints) PCBO/PCSO histories of 1-3 constraints drawn from the six
         "with the model built with the numbers directly: type, coefficients, recorded constraints, num_ancillas; the "
         "symbolic original is snapshotted. (reductions) to_qubo/to_quso/to_pubo/to_puso(lam=Symbol) on degree >= 3 models. "
         "Non-trivial = the symbolic model really contains a symbol in >= 2 coefficients; distinct = digest of the history")
-TIERS = {"quick": {"shards": 8, "cases": 90}, "thorough": {"shards": 16, "cases": 2000}}
+TIERS = {"quick": {"shards": 8, "cases": 120}, "thorough": {"shards": 16, "cases": 5000}}
+FLOOR_BASE = {"quick": 90, "thorough": 2000}    # case counts the floors below were calibrated for; the launcher scales them
 GATES = _sat.ALL + ["eq_" + g for g in _sat.ALL]
 
 
